@@ -101,8 +101,8 @@ pub open spec fn hdr32(code: u8, e: IsArrayElement, body_len: int, count: int) -
     ensures
         r is Ok ==> final(writer).out@ == old(writer).out@ + (
             if !(*ext_is_array_elem is False) { hdr32(0xd1, *ext_is_array_elem, buf@.len() as int, num as int) }   // [C05.array.one-constructor-for-all-elements] [C03.rt.encoder-premise]
-            else if buf@.len() <= 254 { hdr8(0xc1, *ext_is_array_elem, buf@.len() as int, num as int) }     // [C05.map.map8] [C03.rt.encoder-premise] [C01.message.map-header]
-            else { hdr32(0xd1, *ext_is_array_elem, buf@.len() as int, num as int) }                         // [C05.map.map32] [C03.rt.encoder-premise] [C01.message.map-header]
+            else if buf@.len() <= 254 { hdr8(0xc1, *ext_is_array_elem, buf@.len() as int, num as int) }     // [C05.map.map8] [C03.rt.encoder-premise] [C01.message.map-header] [C20.size.encoder-picks-the-form-the-size-pass-assumes]
+            else { hdr32(0xd1, *ext_is_array_elem, buf@.len() as int, num as int) }                         // [C05.map.map32] [C03.rt.encoder-premise] [C01.message.map-header] [C20.size.encoder-picks-the-form-the-size-pass-assumes]
         ) + buf@,
         r is Ok ==> buf@.len() <= 0xffff_fffb,
         r is Ok && *ext_is_array_elem is False && buf@.len() <= 254 ==> num <= 255,                                                        // [C03.map.no-truncation]
